@@ -73,6 +73,8 @@ func main() {
 		}
 	case "c10":
 		runC10(*in, *conc, emit)
+	case "sync":
+		runSync(*in, *conc, emit)
 	case "store":
 		runStore(*in, *conc, emit)
 	case "c05":
